@@ -98,10 +98,11 @@ func queryTimes(rng *rand.Rand, in *annot.Input, pidx int, max int) []time.Time 
 func applyAt(in *annot.Input, o *annot.Outcome, pidx int, t time.Time) tobs {
 	ob := tobs{pidx: pidx, t: t}
 	if !in.IsRel {
+		// a shallow copy: the Updates slice is shared with the annotated original, as a consumer
+		// reconstructing several snapshots would do (ApplyUpdatesUpTo only reads the list)
 		w := o.Built.Ways[pidx]
 		c := *w
 		c.Nodes = append(osm.WayNodes(nil), w.Nodes...)
-		c.Updates = append(osm.Updates(nil), w.Updates...)
 		if err := c.ApplyUpdatesUpTo(t); err != nil {
 			ob.status = 1
 			return ob
@@ -115,7 +116,6 @@ func applyAt(in *annot.Input, o *annot.Outcome, pidx int, t time.Time) tobs {
 	r := o.Built.Relations[pidx]
 	c := *r
 	c.Members = append(osm.Members(nil), r.Members...)
-	c.Updates = append(osm.Updates(nil), r.Updates...)
 	if err := c.ApplyUpdatesUpTo(t); err != nil {
 		ob.status = 1
 		return ob
@@ -164,6 +164,23 @@ func stepCase(w *wire.Writer, rng *rand.Rand, in *annot.Input, o *annot.Outcome,
 	o.Encode(c)
 	var obs []tobs
 	if o.Status == 0 {
+		// snapshot of the update lists at return time: the snapshots below must not change them
+		var before []osm.Updates
+		for _, us := range o.Updates {
+			before = append(before, append(osm.Updates(nil), us...))
+		}
+		defer func() {
+			_, after := o.Built.Observe()
+			for i := range before {
+				same := len(before[i]) == len(after[i])
+				for k := 0; same && k < len(before[i]); k++ {
+					same = before[i][k] == after[i][k]
+				}
+				if !same && c.OracleFail == "" {
+					c.OracleFail = fmt.Sprintf("ApplyUpdatesUpTo on a shallow copy changed the update list of the annotated parent version %d", i+1)
+				}
+			}
+		}()
 		for pidx, p := range in.Parents {
 			if !p.Visible {
 				continue
@@ -385,9 +402,12 @@ func main() {
 		c, _, _ := mainCase(w, rng, in, ntimes, "corpus")
 		w.Add(c)
 	}
-	for _, in := range errorFamily() {
-		c, _, _ := mainCase(w, rng, in, ntimes, "errors")
-		w.Add(c)
+	for _, asChildren := range []bool{false, true} {
+		for _, in := range errorFamily() {
+			in.AsChildren = asChildren
+			c, _, _ := mainCase(w, rng, in, ntimes, "errors")
+			w.Add(c)
+		}
 	}
 	// a slow datasource that honours its context, with one missing child that is to be ignored
 	for k := 0; k < 3; k++ {
